@@ -14,16 +14,22 @@ def nat_observers(h):
                            delete_resource, filter_rows, join, concatenate, load, unstream)
     for _ in range(h.n(30, 300)):
         nres = h.rng.randint(1, 3)
-        data = [[{'id': i, 'v': 'r%d_%d' % (k, i)} for i in range(h.rng.randint(0, 5))] for k in range(nres)]
+        # (now and then one resource is longer than any write batch of a dumper: 1000 + a few rows)
+        big = h.rng.randint(0, nres - 1) if _ % 6 == 5 else None
+        data = [[{'id': i, 'v': 'r%d_%d' % (k, i)} for i in range(1203 if k == big else h.rng.randint(0, 5))] for k in range(nres)]
         d = tempfile.mkdtemp(prefix='c05_')
         fired = []
         try:
             kind = h.rng.choice(['printer', 'printer-sel', 'dump_to_path', 'dump_to_zip', 'stream', 'checkpoint', 'finalizer',
-                                 'update_stats', 'validate'])
+                                 'update_stats', 'validate', 'dump_to_path-json', 'validate']) if big is None else \
+                h.rng.choice(['dump_to_path', 'dump_to_path-json', 'dump_to_zip', 'stream', 'checkpoint', 'printer'])
+            # (every resource may declare `id` as its primary key: the key values recur from resource to resource, never within one)
+            keyed = h.rng.random() < 0.5
             obs = {
                 'printer': lambda: printer(num_rows=h.rng.randint(1, 3), last_rows=h.rng.choice([None, 1, 2])),
                 'printer-sel': lambda: printer(resources='res_1'),
                 'dump_to_path': lambda: dump_to_path(os.path.join(d, 'dump')),
+                'dump_to_path-json': lambda: dump_to_path(os.path.join(d, 'dump'), format='json'),
                 'dump_to_zip': lambda: dump_to_zip(os.path.join(d, 'dump.zip')),
                 'stream': lambda: stream(os.path.join(d, 's', 'out.ndjson')),
                 'checkpoint': lambda: checkpoint('cp', checkpoint_path=d),
@@ -41,7 +47,8 @@ def nat_observers(h):
             }[suffix_kind]
 
             def mk(extra):
-                return Flow(*[[dict(r) for r in rs] for rs in data], *extra)
+                from dataflows import set_primary_key
+                return Flow(*[[dict(r) for r in rs] for rs in data], *([set_primary_key(['id'], resources=None)] if keyed else []), *extra)
             ref = h.run(lambda: mk(suffix).results())
             got = h.run(lambda: mk([obs()] + suffix).results())
             if ref[0] != 'ok':
@@ -52,7 +59,7 @@ def nat_observers(h):
             if got[0] != 'ok':
                 continue
             # what the observer captured = the full stream at its position
-            if kind == 'dump_to_path':
+            if kind in ('dump_to_path', 'dump_to_path-json'):
                 back = h.run(lambda: Flow(load(os.path.join(d, 'dump', 'datapackage.json'))).results()[0])
                 h.check(back[0] == 'ok' and back[1] == data, 'observer:dump_to_path', (suffix_kind, data), data, back[:2])
             elif kind == 'dump_to_zip':
@@ -68,6 +75,30 @@ def nat_observers(h):
                 h.check(fired == [1], 'observer:finalizer', (suffix_kind, data), 'fires exactly once', fired)
         finally:
             shutil.rmtree(d, ignore_errors=True)
+    # deterministic: resources longer than any write batch (1000) through every persisting observer and format; key values that
+    # recur from resource to resource (each resource has its OWN primary key) through validate
+    from dataflows import set_primary_key
+    from dataflows.base.schema_validator import drop as _drop
+    long_data = [[{'id': i, 'v': 'a%d' % i} for i in range(2105)], [{'id': i, 'v': 'b%d' % i} for i in range(3)]]
+    for kind in ('path-csv', 'path-json', 'zip-json', 'stream'):
+        d = tempfile.mkdtemp(prefix='c05L_')
+        try:
+            obs = {'path-csv': lambda: dump_to_path(os.path.join(d, 'o')), 'path-json': lambda: dump_to_path(os.path.join(d, 'o'), format='json'),
+                   'zip-json': lambda: dump_to_zip(os.path.join(d, 'o.zip'), format='json'), 'stream': lambda: stream(os.path.join(d, 's.ndjson'))}[kind]
+            got = h.run(lambda: Flow(*[[dict(r) for r in rs] for rs in long_data], obs()).results()[0])
+            back = h.run(lambda: Flow(unstream(os.path.join(d, 's.ndjson')) if kind == 'stream' else
+                                      load(os.path.join(d, 'o.zip'), format='datapackage') if kind == 'zip-json' else
+                                      load(os.path.join(d, 'o', 'datapackage.json'))).results()[0])
+            h.check(got[0] == 'ok' and got[1] == long_data and back[0] == 'ok' and back[1] == long_data, 'observer:' + kind, ('2105 + 3 rows', kind),
+                    'downstream unchanged; what was persisted reads back complete', (got[0], back[0], [len(x) for x in back[1]] if back[0] == 'ok' else back[1]))
+        finally:
+            shutil.rmtree(d, ignore_errors=True)
+    keyed_data = [[{'id': i, 'v': 'a%d' % i} for i in range(4)], [{'id': i, 'v': 'b%d' % i} for i in (2, 3, 4)], [{'id': 3, 'v': 'c'}]]
+    for policy in (None, _drop):
+        got = h.run(lambda: Flow(*[[dict(r) for r in rs] for rs in keyed_data], set_primary_key(['id'], resources=None),
+                                 validate(**({'on_error': policy} if policy else {}))).results()[0])
+        h.check(got[0] == 'ok' and got[1] == keyed_data, 'observer:validate', ('key values recurring across resources', policy and 'drop'),
+                keyed_data, got[1] if got[0] == 'ok' else got[:2])
     # finalizer callbacks of every accepted shape, succeeding or failing AFTER their side effect (a TypeError of their own
     # included): fired exactly once per pass of the stream; a failing callback fails the run
     from dataflows import delete_resource
